@@ -117,7 +117,7 @@ func NewCustomizeManager(
 }
 
 func (rm *Manager) IsEnabled() bool {
-	return rm.customizeHook != nil
+	return rm.customizeHook != nil && rm.customizeHook.IsEnabled()
 }
 
 func (rm *Manager) Start(stopCh chan struct{}) {
